@@ -91,6 +91,20 @@ def run(repo, res):
             if rname in ('assist', 'location', 'lint'):
                 check_server_method(repo, res, facts, h, rname, link)
     res.count('client_stubs', stubs, floor=5)
+    # configure: a fresh Project from the given configuration on every path (a later request must equal what the
+    # in-process API returns on a project built from *this* configuration)
+    cfg = srv_methods.get('configure')
+    if cfg is None:
+        raise AnalysisError('Server.configure vanished')
+    stores = [n for n in ast.walk(cfg) if isinstance(n, ast.Assign) and unparse(n.targets[0]) == 'self.project']
+    early = may_exit(cfg.body[:-1] if cfg.body else [], (ast.Return,)) if len(cfg.body) > 1 else None
+    ok = (len(stores) == 1 and stores[0] is cfg.body[-1] and early is None and isinstance(stores[0].value, ast.Call)
+          and unparse(stores[0].value.func) == 'Project' and "config['sources']" in unparse(cfg)
+          and 'dyn_modules' in unparse(stores[0].value))
+    res.check('C15-R1', 'Server.configure builds the project from the configuration', ok, SERVER, cfg.lineno,
+              'Server.configure must replace the session project by Project(config[\'sources\'], dyn_modules=...) on every '
+              'path; a path that keeps the old project makes later replies differ from the in-process result for the same '
+              'configuration', sample='configure: self.project = Project(config[...]) unconditionally')
 
     # ---------------- R2 containment -------------------------------------
     proc = srv_methods.get('process')
@@ -205,8 +219,9 @@ def run(repo, res):
     fallback = [c for c in dumps_calls if in_handler(c, loop)]
     for c in primary:
         tr = enclosing_try_bodies(c, loop)
-        ok = any(any(handler_catches(h, ('Exception', 'BaseException', 'PackException',
-                                         'UnsupportedTypeException'))
+        # packing can fail with more than PackException (UnicodeEncodeError for a lone surrogate, RecursionError for a
+        # self-containing list, struct.error): the handler must catch Exception
+        ok = any(any(handler_catches(h, ('Exception', 'BaseException'))
                      and not may_exit(h.body, (ast.Raise, ast.Break, ast.Return))
                      for h in t.handlers) for t in tr)
         res.check('C15-R3', 'serialisation failure contained', ok, SERVER, c.lineno,
